@@ -9,6 +9,7 @@ import (
 	"go/token"
 	"go/types"
 	"sort"
+	"strconv"
 	"strings"
 )
 
@@ -173,7 +174,122 @@ func inclusionRule(c *Ctx, R string) {
 	}
 }
 
-// wrapperRule: ParseList / ParseObject.
+// wrapperFold folds the paths of ParseList / ParseObject over all short inputs (alphabet: the two root brackets, newline, a letter)
+// and reports, per input, the machine call (concrete suffix, concrete start line) or the error return.
+type wrapperObs struct {
+	called   bool
+	suffix   string
+	line     int64
+	lineOK   bool
+	errOnly  bool
+	passThru bool
+	why      string
+}
+
+func wrapperFold(c *Ctx, fd *ast.FuncDecl, machine string, s string) (wrapperObs, string) {
+	paths, why := c.runPaths(fd)
+	if why != "" {
+		return wrapperObs{}, "body outside the path vocabulary: " + why
+	}
+	jsonP := soleParam(c, fd)
+	var res *wrapperObs
+	for _, p := range paths {
+		loopVals := map[string]sval{}
+		hook := func(t Term) (sval, bool) {
+			if isParamTerm(t, jsonP) {
+				return sval{K: 's', S: s}, true
+			}
+			if lv, ok := t.(TLoop); ok {
+				if v, ok := loopVals[key(lv)]; ok {
+					return v, true
+				}
+			}
+			return sval{}, false
+		}
+		feasible := true
+		var obs wrapperObs
+		stores := map[string]Term{}
+		var call *TCall
+		for _, st := range p.Steps {
+			switch st.Kind {
+			case "cond":
+				e := &strEnv{hook: hook}
+				v, ok := e.val(st.Cond.T)
+				if e.panic != "" {
+					return wrapperObs{}, "input " + strconv.Quote(s) + ": " + e.panic
+				}
+				if !ok || v.K != 'b' {
+					return wrapperObs{}, "condition cannot be folded: " + e.fail
+				}
+				if v.B != st.Cond.Truth {
+					feasible = false
+				}
+			case "store":
+				stores[key(st.LHS)] = st.RHS
+			case "call":
+				if st.Call != nil && st.Call.Fun != nil && st.Call.Fun.Name() == machine && st.Call.Fun.Pkg() == c.Types {
+					if call != nil {
+						obs.why = "the machine is called twice"
+					}
+					call = st.Call
+				} else if st.Call != nil && st.Call.Fun != nil && st.Call.Fun.Pkg() == c.Types {
+					obs.why = "unexpected call of " + st.Call.Fun.Name()
+				}
+			case "loop":
+				fin, why := c.foldLoop(st.Loop, hook, 32)
+				if why != "" {
+					obs.why = "loop in the wrapper cannot be folded: " + why
+				}
+				for o, v := range fin {
+					loopVals[key(TLoop{o, st.Loop.ID})] = v
+				}
+			}
+			if !feasible {
+				break
+			}
+		}
+		if !feasible {
+			continue
+		}
+		if res != nil {
+			return wrapperObs{}, "two feasible paths for input " + strconv.Quote(s)
+		}
+		if call != nil && len(call.Args) == 2 {
+			obs.called = true
+			e := &strEnv{hook: hook}
+			if v, ok := e.val(call.Args[0]); ok && v.K == 's' && e.panic == "" {
+				obs.suffix = v.S
+			} else {
+				obs.why = "the machine's input cannot be folded"
+			}
+			if ad, ok := call.Args[1].(TAddr); ok {
+				if rhs, ok := stores[key(ad.X)]; ok {
+					e2 := &strEnv{hook: hook}
+					if v, ok := e2.val(rhs); ok && v.K == 'i' {
+						obs.line, obs.lineOK = v.I, true
+					}
+				}
+			}
+			if p.End == "return" && len(p.Vals) == 2 {
+				p0, ok0 := p.Vals[0].(TProj)
+				p2, ok2 := p.Vals[1].(TProj)
+				obs.passThru = ok0 && ok2 && p0.K == 0 && p2.K == 2 && key(p0.X) == key(*call) && key(p2.X) == key(*call)
+			}
+		} else if p.End == "return" && len(p.Vals) == 2 {
+			_, n0 := p.Vals[0].(TNil)
+			_, n1 := p.Vals[1].(TNil)
+			obs.errOnly = n0 && !n1
+		}
+		cp := obs
+		res = &cp
+	}
+	if res == nil {
+		return wrapperObs{}, "no feasible path for input " + strconv.Quote(s)
+	}
+	return *res, ""
+}
+
+// wrapperRule: ParseList / ParseObject start at the first root bracket, hand json[start:] on, pass the machine's pair through.
 func wrapperRule(c *Ctx, rule string) {
 	n := 0
 	for _, spec := range []struct{ name, machine, bracket string }{{"ParseList", "parseList", "["}, {"ParseObject", "parseObject", "{"}} {
@@ -183,74 +299,38 @@ func wrapperRule(c *Ctx, rule string) {
 		}
 		n++
 		ob := c.Ob(rule, spec.name, fd.Pos())
-		jsonP := soleParam(c, fd)
-		var start, startLine types.Object
-		var mcall *ast.CallExpr
-		var mres []types.Object
-		why := ""
-		guarded := false
-		for _, s := range fd.Body.List {
-			switch x := s.(type) {
-			case *ast.AssignStmt:
-				if len(x.Rhs) != 1 {
-					why = "unexpected assignment"
-					continue
-				}
-				call, isCall := unparen(x.Rhs[0]).(*ast.CallExpr)
-				switch {
-				case isCall && c.calleeFull(call) == "strings.Index" && len(call.Args) == 2 && c.obj(call.Args[0]) == jsonP && len(x.Lhs) == 1:
-					if b, ok := c.constString(call.Args[1]); !ok || b != spec.bracket {
-						why = "root is searched with the wrong bracket"
-					}
-					start = c.obj(x.Lhs[0])
-				case isCall && c.callee(call) != nil && c.callee(call).Name() == spec.machine && len(x.Lhs) == 3:
-					mcall = call
-					for _, l := range x.Lhs {
-						mres = append(mres, c.obj(l))
-					}
-				case len(x.Lhs) == 1:
-					startLine = c.obj(x.Lhs[0]) // checked by C20.R3
-				default:
-					why = "unexpected assignment"
-				}
-			case *ast.IfStmt:
-				// if start < 0 { return nil, Errorf }
-				be, ok := unparen(x.Cond).(*ast.BinaryExpr)
-				r := singleReturn(x.Body)
-				if ok && be.Op == token.LSS && c.obj(be.X) == start && start != nil && r != nil && len(r.Results) == 2 && c.isNil(r.Results[0]) && !c.isNil(r.Results[1]) && mcall == nil {
-					if k, ok := c.constInt(be.Y); ok && k == 0 {
-						guarded = true
-						continue
-					}
-				}
-				why = "unexpected conditional"
-			case *ast.ReturnStmt:
-				if len(x.Results) != 2 || len(mres) != 3 || c.obj(x.Results[0]) != mres[0] || c.obj(x.Results[1]) != mres[2] || mres[0] == nil || mres[2] == nil {
-					why = "does not return the machine's (root, err) pair unchanged"
-				}
-			default:
-				why = "unexpected statement"
+		bad, undec, cases := "", "", 0
+		for _, s := range shortStrings("[{\na", 4) {
+			obs, why := wrapperFold(c, fd, spec.machine, s)
+			if why != "" {
+				undec = why
+				break
+			}
+			cases++
+			idx := strings.Index(s, spec.bracket)
+			switch {
+			case obs.why != "":
+				undec = obs.why
+			case idx < 0 && (obs.called || !obs.errOnly):
+				bad = "input " + strconv.Quote(s) + " has no root bracket but is not rejected with (nil, error)"
+			case idx >= 0 && !obs.called:
+				bad = "input " + strconv.Quote(s) + ": the machine is not called"
+			case idx >= 0 && obs.suffix != s[idx:]:
+				bad = "input " + strconv.Quote(s) + ": the machine is handed " + strconv.Quote(obs.suffix) + ", not the text from the first root bracket " + strconv.Quote(s[idx:])
+			case idx >= 0 && !obs.passThru:
+				bad = "the machine's (root, err) pair is not returned unchanged"
+			}
+			if bad != "" || undec != "" {
+				break
 			}
 		}
-		if why == "" && (start == nil || !guarded) {
-			why = "no `start < 0 => error` guard after strings.Index"
-		}
-		if why == "" && mcall == nil {
-			why = "the machine " + spec.machine + " is not called"
-		}
-		if why == "" {
-			se, ok := unparen(mcall.Args[0]).(*ast.SliceExpr)
-			if !ok || c.obj(se.X) != jsonP || c.obj(se.Low) != start || se.High != nil {
-				why = "the machine is not handed json[start:]"
-			}
-			if u, ok := unparen(mcall.Args[1]).(*ast.UnaryExpr); !ok || u.Op != token.AND || c.obj(u.X) != startLine || startLine == nil {
-				why = "the machine is not handed the address of the start-line variable"
-			}
-		}
-		if why == "" {
-			ob.Ok("start = strings.Index(json, %q); start < 0 => (nil, error); machine(json[start:], &startLine); returns its (root, err)", spec.bracket)
-		} else {
-			ob.Fail("%s", why)
+		switch {
+		case undec != "":
+			ob.Undecided("%s", undec)
+		case bad != "":
+			ob.Fail("%s", bad)
+		default:
+			ob.Ok("for all %d inputs of length <= 4 over {'[', '{', newline, letter}: no root bracket => (nil, error); otherwise the machine gets exactly the text from the first %q and its (root, err) is returned unchanged", cases, spec.bracket)
 		}
 	}
 	c.R.Floor(rule, n, 2)
@@ -270,7 +350,10 @@ func init() {
 			{ID: "C04.R2", Doc: "termination: i += size with size from DecodeRuneInString(json[i:]) of the same iteration, size 0 rejected, only unlabelled continue, nested calls only outside the initial state (strictly shorter suffix), i += pos once", Run: func(c *Ctx) {}},
 			{ID: "C04.R3", Doc: "end of input: the statement after the loop is an ERR return; OK exits exist only on the level's own closer", Run: func(c *Ctx) {}},
 			{ID: "C04.R4", Doc: "ill-formed UTF-8 ((RuneError,1), (RuneError,0)) is rejected from every state and flag combination; the decode-and-guard pair dominates the loop body", Run: func(c *Ctx) { utf8GuardRule(c, "C04.R4", true, false) }},
-			{ID: "C04.R5", Doc: "no panic: explicit panics reachable only with statically safe arguments; every index/slice/dereference in the parse closure is guarded", Run: c04Panics},
+			{ID: "C04.R5", Doc: "no panic: explicit panics reachable only with statically safe arguments; every index/slice of the input in the parse closure is within bounds", Run: func(c *Ctx) {
+				c04Panics(c)
+				c04StringAccess(c)
+			}},
 			{ID: "C04.R6", Doc: "determinism: no map range, go statement, select, package-level state, time or randomness in the parse closure", Run: c04Determinism},
 			{ID: "C04.R7", Doc: "ParseFile = os.ReadFile(path); error => (nil, err); otherwise ParseObject(string(data)) unchanged", Run: c04ParseFile},
 			{ID: "C04.R8", Doc: "wrappers ParseList/ParseObject", Run: func(c *Ctx) { wrapperRule(c, "C04.R8") }},
@@ -624,26 +707,97 @@ func c04Panics(c *Ctx) {
 						c.Ob("C04.R5", name+"/division#"+itoa(n), x.Pos()).Undecided("division by a non-constant on the parse path")
 					}
 				}
-			case *ast.IndexExpr:
-				if t := c.typeOf(x.X); t != nil {
-					if _, isMap := t.Underlying().(*types.Map); !isMap {
-						if _, isSig := c.typeOf(x).(*types.Signature); !isSig {
-							n++
-							c.Ob("C04.R5", name+"/index#"+itoa(n), x.Pos()).Undecided("index expression %s on the parse path is not covered by a length guard known to the checker", exprStr(x))
-						}
-					}
-				}
-			case *ast.SliceExpr:
-				n++
-				ob := c.Ob("C04.R5", name+"/slice "+exprStr(x), x.Pos())
-				if why := c.parserSliceSafe(fd, x); why == "" {
-					ob.Ok("slice bounds within the string's length by the enclosing guard")
-				} else {
-					ob.Fail("%s", why)
-				}
 			}
 			return true
 		})
+	}
+}
+
+// c04StringAccess: every index/slice of the input string in the parse closure is within bounds:
+// (a) the wrappers (with their inlined helpers) are folded over all short inputs and must not raise a run-time panic;
+// (b) in the machines the only access to the input is json[i:] with the loop index i < len(json).
+func c04StringAccess(c *Ctx) {
+	for _, spec := range []struct{ name, machine string }{{"ParseList", "parseList"}, {"ParseObject", "parseObject"}} {
+		fd := c.Decl(spec.name)
+		if fd == nil {
+			continue
+		}
+		ob := c.Ob("C04.R5", spec.name+"/input-access", fd.Pos())
+		bad, undec, n := "", "", 0
+		for _, s := range shortStrings("[{\na", 4) {
+			obs, why := wrapperFold(c, fd, spec.machine, s)
+			n++
+			if strings.Contains(why, "out of range") || strings.Contains(obs.why, "out of range") {
+				bad = "input " + strconv.Quote(s) + ": " + why + obs.why
+				break
+			}
+			if why != "" {
+				undec = why
+				break
+			}
+			if obs.why != "" {
+				undec = obs.why
+				break
+			}
+		}
+		switch {
+		case bad != "":
+			ob.Fail("an index/slice of the input goes out of range: %s", bad)
+		case undec != "":
+			ob.Undecided("%s", undec)
+		default:
+			ob.Ok("no index or slice of the input goes out of range on any of the %d inputs of length <= 4 (helpers inlined)", n)
+		}
+	}
+	for _, m := range c.machines().each() {
+		if m.fn == nil || m.why != "" {
+			continue
+		}
+		sm := m.sx()
+		if sm.why != "" {
+			continue
+		}
+		ob := c.Ob("C04.R5", m.name+"/input-access", m.fn.Pos())
+		bad := ""
+		n := 0
+		visit := func(t Term) {
+			collectSubterms(t, func(s Term) {
+				switch x := s.(type) {
+				case TSlice:
+					if isParamTerm(x.X, m.jsonV) {
+						n++
+						if !m.loopVar(x.Lo, m.idxV) || x.Hi != nil || x.Max != nil {
+							bad = "slice " + c.termStr(s) + " of the input is not json[i:] with the loop index i < len(json): it can go out of range on short input"
+						}
+					}
+				case TIndex:
+					if isParamTerm(x.X, m.jsonV) {
+						n++
+						if !m.loopVar(x.I, m.idxV) {
+							bad = "index " + c.termStr(s) + " of the input is not guarded by the loop condition"
+						}
+					}
+				}
+			})
+		}
+		for _, ip := range sm.iter {
+			for _, st := range ip.Steps {
+				visit(st.Cond.T)
+				visit(st.LHS)
+				visit(st.RHS)
+				if st.Call != nil {
+					visit(*st.Call)
+				}
+			}
+			for _, v := range ip.Vals {
+				visit(v)
+			}
+		}
+		if bad != "" {
+			ob.Fail("%s", bad)
+		} else {
+			ob.Ok("the input is accessed only as json[i:] with the loop index i < len(json) (%d term occurrences on the iteration paths)", n)
+		}
 	}
 }
 
@@ -985,59 +1139,47 @@ func (m *Machine) isLineInc(s ast.Stmt) bool {
 
 func c20Seeds(c *Ctx) {
 	n := 0
-	for _, spec := range []struct{ name, machine string }{{"ParseList", "parseList"}, {"ParseObject", "parseObject"}} {
+	for _, spec := range []struct{ name, machine, bracket string }{{"ParseList", "parseList", "["}, {"ParseObject", "parseObject", "{"}} {
 		fd := c.NeedDecl("C20.R3", spec.name)
 		if fd == nil {
 			continue
 		}
 		n++
 		ob := c.Ob("C20.R3", spec.name+"/seed", fd.Pos())
-		jsonP := soleParam(c, fd)
-		var start, startLine types.Object
-		var seedExpr ast.Expr
-		var mcall *ast.CallExpr
-		for _, s := range fd.Body.List {
-			as, ok := s.(*ast.AssignStmt)
-			if !ok || len(as.Rhs) != 1 {
+		bad, undec, cases := "", "", 0
+		for _, s := range shortStrings("[{\na", 4) {
+			idx := strings.Index(s, spec.bracket)
+			if idx < 0 {
 				continue
 			}
-			call, isCall := unparen(as.Rhs[0]).(*ast.CallExpr)
-			switch {
-			case isCall && c.calleeFull(call) == "strings.Index" && len(as.Lhs) == 1:
-				start = c.obj(as.Lhs[0])
-			case isCall && c.callee(call) != nil && c.callee(call).Name() == spec.machine:
-				mcall = call
-			case len(as.Lhs) == 1 && mcall == nil:
-				startLine, seedExpr = c.obj(as.Lhs[0]), as.Rhs[0]
+			obs, why := wrapperFold(c, fd, spec.machine, s)
+			if why != "" {
+				undec = why
+				break
+			}
+			if obs.why != "" {
+				undec = obs.why
+				break
+			}
+			cases++
+			want := int64(1 + strings.Count(s[:idx], "\n"))
+			if !obs.called || !obs.lineOK {
+				undec = "input " + strconv.Quote(s) + ": the start line handed to the machine cannot be folded (it must be a variable assigned before the call and passed by address)"
+				break
+			}
+			if obs.line != want {
+				bad = "input " + strconv.Quote(s) + ": the machine's line counter starts at " + itoa(int(obs.line)) + ", the root bracket is on line " + itoa(int(want))
+				break
 			}
 		}
-		good := start != nil && startLine != nil && mcall != nil && !writesVarAfterDef2(c, fd, startLine)
-		if good {
-			// seedExpr = strings.Count(json[:start], "\n") + 1 (either operand order)
-			be, ok := unparen(seedExpr).(*ast.BinaryExpr)
-			good = ok && be.Op == token.ADD
-			if good {
-				cnt, one := be.X, be.Y
-				if _, isC := c.constInt(cnt); isC {
-					cnt, one = one, cnt
-				}
-				k, okk := c.constInt(one)
-				call, okc := unparen(cnt).(*ast.CallExpr)
-				good = okk && k == 1 && okc && c.calleeFull(call) == "strings.Count" && len(call.Args) == 2
-				if good {
-					nl, oks := c.constString(call.Args[1])
-					se, okse := unparen(call.Args[0]).(*ast.SliceExpr)
-					good = oks && nl == "\n" && okse && c.obj(se.X) == jsonP && se.Low == nil && c.obj(se.High) == start
-				}
-			}
+		switch {
+		case undec != "":
+			ob.Undecided("%s", undec)
+		case bad != "":
+			ob.Fail("the machine's line counter is not seeded with 1 + the number of newlines before the root bracket: %s", bad)
+		default:
+			ob.Ok("for all %d inputs with a root bracket (length <= 4 over {'[', '{', newline, letter}) the counter handed to the machine by address starts at 1 + newlines before the bracket", cases)
 		}
-		if good {
-			u, ok := unparen(mcall.Args[1]).(*ast.UnaryExpr)
-			se, okse := unparen(mcall.Args[0]).(*ast.SliceExpr)
-			good = ok && u.Op == token.AND && c.obj(u.X) == startLine && okse && c.obj(se.X) == jsonP && c.obj(se.Low) == start && se.High == nil
-		}
-		ob.Check(good, "startLine = strings.Count(json[:start], \"\\n\") + 1 for the same `start` whose suffix json[start:] is parsed; &startLine is the machine's counter",
-			"the machine's line counter is not seeded with 1 + the number of newlines before the root bracket (text preceding the root shifts every cited line)")
 	}
 	c.R.Floor("C20.R3", n, 2)
 	c04ParseFileAs(c, "C20.R3")
@@ -1075,13 +1217,13 @@ func writesVarAfterDef2(c *Ctx, fd *ast.FuncDecl, v types.Object) bool {
 	return n > 1
 }
 
-// c20Formats: every Errorf in the parser core whose constant format mentions `line %d`.
+// c20Formats: on every path of the parser core that returns a constructed error, every integer that flows into the message is the
+// line counter: *line read after the iteration's increment (machines), or the helper's line parameter (token consumers, whose call
+// sites pass *line — see consumer-line-arg).
 func c20Formats(c *Ctx) {
 	n := 0
-	lineParamFns := map[*ast.FuncDecl]types.Object{}
 	for _, fd := range parserCore(c) {
 		name := declName(fd)
-		// the function's line variable: a *int parameter (machines) or an int parameter named by position (helpers)
 		var linePtr, lineInt types.Object
 		if fd.Type.Params != nil {
 			for _, f := range fd.Type.Params.List {
@@ -1095,49 +1237,122 @@ func c20Formats(c *Ctx) {
 				}
 			}
 		}
-		ast.Inspect(fd.Body, func(node ast.Node) bool {
-			call, ok := node.(*ast.CallExpr)
-			if !ok || (c.calleeFull(call) != "fmt.Errorf" && c.calleeFull(call) != "fmt.Sprintf") || len(call.Args) == 0 {
-				return true
-			}
-			format, ok := c.constString(call.Args[0])
-			if !ok || !strings.Contains(format, "line %") {
-				return true
-			}
-			// index of the verb that follows "line "
-			argIdx, verbs := -1, 0
-			for i := 0; i < len(format); i++ {
-				if format[i] != '%' {
-					continue
+		if linePtr == nil && lineInt == nil {
+			continue
+		}
+		x := c.NewSX()
+		x.budget = 200000
+		paths := x.Run(fd)
+		var all []*Path
+		var collect func(ps []*Path)
+		collect = func(ps []*Path) {
+			for _, p := range ps {
+				all = append(all, p)
+				for _, st := range p.Steps {
+					if st.Kind == "loop" {
+						collect(st.Loop.Iter)
+					}
 				}
-				if i+1 < len(format) && format[i+1] == '%' {
-					i++
-					continue
-				}
-				if strings.HasSuffix(format[:i], "line ") {
-					argIdx = verbs
-				}
-				verbs++
 			}
+		}
+		collect(paths)
+		seen := map[string]bool{}
+		for _, p := range all {
+			if p.End != "return" || len(p.Vals) == 0 {
+				continue
+			}
+			errT := p.Vals[len(p.Vals)-1]
+			call, ok := errT.(TCall)
+			if !ok || call.Fun == nil || (call.Fun.FullName() != "fmt.Errorf" && call.Fun.FullName() != "errors.New") {
+				continue
+			}
+			// integers flowing into the message
+			var ints []Term
+			for _, a := range unpack(call.Args) {
+				collectInts(a, &ints)
+			}
+			if len(ints) == 0 {
+				continue
+			}
+			k := c.Pos(posOfNode(p.Node))
+			if seen[k] {
+				continue
+			}
+			seen[k] = true
 			n++
-			ob := c.Ob("C20.R4", name+"/format#"+itoa(n), call.Pos())
-			if argIdx < 0 || argIdx+1 >= len(call.Args) {
-				ob.Undecided("cannot locate the argument of `line %%d`")
-				return true
+			ob := c.Ob("C20.R4", name+"/error#"+itoa(n), posOfNode(p.Node))
+			// epoch of the line increment on this path (if any)
+			incEpoch := -1
+			ep := 0
+			for _, st := range p.Steps {
+				if st.Kind == "store" || st.Kind == "call" {
+					ep++
+				}
+				if st.Kind == "store" {
+					if d, ok := st.LHS.(TDeref); ok && linePtr != nil && isParamTerm(d.X, linePtr) {
+						incEpoch = ep
+					}
+				}
 			}
-			arg := unparen(call.Args[argIdx+1])
-			if st, ok := arg.(*ast.StarExpr); ok && linePtr != nil && c.obj(st.X) == linePtr {
-				ob.Ok("`line %%d` receives *line, evaluated in the iteration of the offending character")
-				return true
+			_ = incEpoch
+			good := true
+			for _, it := range ints {
+				switch v := it.(type) {
+				case TDeref:
+					if linePtr == nil || !isParamTerm(v.X, linePtr) {
+						good = false
+					}
+				case TVar:
+					if lineInt == nil || v.Obj != lineInt {
+						good = false
+					}
+				default:
+					good = false
+				}
 			}
-			if lineInt != nil && c.obj(arg) == lineInt {
-				lineParamFns[fd] = lineInt
-				ob.Ok("`line %%d` receives the helper's line parameter (its call sites pass *line, see consumer-line-arg)")
-				return true
+			if good {
+				ob.Ok("the only integer in the error message is the line counter (%s)", map[bool]string{true: "*line", false: "the helper's line parameter"}[linePtr != nil])
+			} else {
+				ob.Fail("an error message cites an integer that is not the line counter: %s", c.termStr(errT))
 			}
-			ob.Fail("`line %%d` is formatted from %s, not from the line counter", exprStr(arg))
-			return true
-		})
+		}
 	}
 	c.R.Floor("C20.R4", n, 4)
+}
+
+// collectInts gathers the integer-typed leaves that are formatted into a message: arguments of Errorf/Sprintf and of Itoa/FormatInt.
+func collectInts(t Term, out *[]Term) {
+	switch x := t.(type) {
+	case TDeref:
+		*out = append(*out, x)
+	case TVar:
+		if isIntType(x.Obj.Type()) {
+			*out = append(*out, x)
+		}
+	case TLoop:
+		if isIntType(x.Obj.Type()) {
+			*out = append(*out, x)
+		}
+	case TConv:
+		if b, ok := x.To.Underlying().(*types.Basic); ok && b.Info()&types.IsString != 0 {
+			return // string(char): a character, not a number
+		}
+		collectInts(x.X, out)
+	case TBin:
+		collectInts(x.X, out)
+		collectInts(x.Y, out)
+	case TCall:
+		if x.Fun != nil {
+			switch x.Fun.FullName() {
+			case "strconv.Itoa", "strconv.FormatInt", "fmt.Sprintf", "fmt.Sprint":
+				for _, a := range unpack(x.Args) {
+					collectInts(a, out)
+				}
+			}
+		}
+	case TLit:
+		for _, e := range x.Elts {
+			collectInts(e, out)
+		}
+	}
 }
